@@ -1,3 +1,114 @@
-"""C14, shared=True from several processes: CacheConc.tla + lock-scheduled replay (built later)."""
-def run(ctx):
-    return
+"""C14, shared=True used concurrently: CacheConc.tla + lock-scheduled replay.
+
+TLC explores every interleaving of two processes at lock granularity for the code as written (Fixed=FALSE: exhibits the
+check-then-act race of get) and as repaired (Fixed=TRUE: NoKeyError holds), and prints every complete behaviour of the
+AS-WRITTEN model as a lock hand-over script.  Each script is realised on a real shared=True LRUCache / HybridCache whose
+instance lock is replaced by the scheduler-controlled lock; the operations, linearised in the order in which they took
+effect, with their results and the observations after each one, are validated by TLC against the sequential model
+(TraceCache.tla): a KeyError, a wrong victim or a stale value is a rejected history.
+"""
+from __future__ import annotations
+
+import json
+import threading
+
+from ..tlc import MachineryError, run_tlc
+from ..tracekit import parse_prints, validate_traces
+from .. import lockctl
+
+CFG = """SPECIFICATION Spec
+CONSTANTS Kind = "{kind}" Max = {max} Keys = {{"a", "b", "c"}} Fixed = {fixed} Export = {export} ProgSet = {ps}
+INVARIANT InvWellFormed InvLenBounded {inv} Emit
+"""
+
+
+def export_scripts(ctx, kind: str, mx: int, ps: int) -> tuple[list, list]:
+    # repaired model: the race is gone
+    r = run_tlc("CacheConc", CFG.format(kind=kind, max=mx, fixed="TRUE", export="FALSE", ps=ps, inv="NoKeyError"),
+                ctx.workdir(f"conc_fixed_{kind}_{mx}_{ps}"), workers=2, allow_violation=False)
+    ctx.add_tlc(r, f"CacheConc repaired {kind} max={mx} progs={ps}: NoKeyError")
+    # as written: behaviours incl. the racy ones -> scripts
+    r = run_tlc("CacheConc", CFG.format(kind=kind, max=mx, fixed="FALSE", export="TRUE", ps=ps, inv=""),
+                ctx.workdir(f"conc_asis_{kind}_{mx}_{ps}"), workers=2, allow_violation=False)
+    ctx.add_tlc(r, f"CacheConc as written {kind} max={mx} progs={ps}: all behaviours exported")
+    scripts = [p for t, p in parse_prints(r.prints) if t == "SCRIPT"]
+    if not scripts:
+        raise MachineryError("CacheConc exported no scripts")
+    uniq = {json.dumps(s["steps"]): s for s in scripts}
+    return list(uniq.values()), scripts
+
+
+def realise(script: dict, cfgd: dict) -> dict:
+    from . import c14
+    cache = c14.make_cache(dict(cfgd, shared=True), None)
+    ctl = lockctl.Controller(script["steps"])
+    cache._cache_lock = lockctl.CtlLock(ctl)  # noqa: SLF001  (instance attribute, public classes untouched)
+    keys = cfgd["keys"]
+
+    def proc(p: int, ops: list[dict]) -> None:
+        for n, o in enumerate(ops, start=1):
+            ctl.op_start(p, n)
+            e = {"op": o["op"] if o["op"] != "idiom" else "get", "k": o.get("k", ""), "v": o.get("v", 0), "d": o.get("d", 0),
+                 "max": 0, "lsize": 0, "exc": "", "p": p}
+            try:
+                if o["op"] == "put":
+                    r = cache.put(o["k"], o["v"], float(o["d"])) if cfgd["kind"] == "hybrid" else cache.put(o["k"], o["v"])
+                elif o["op"] == "get":
+                    r = cache.get(o["k"])
+                elif o["op"] == "clear":
+                    r = cache.clear()
+                elif o["op"] == "idiom":
+                    present = o["k"] in cache
+                    pre = dict(e, op="in", res=1 if present else 0)
+                    pre.update(c14.observe(cache, cfgd))
+                    ctl.events.append(pre)
+                    if not present:
+                        ctl.op_end(None)
+                        ctl.events.pop()
+                        continue
+                    ctl.point()
+                    r = cache.get(o["k"])
+                e["res"] = 0 if r is None else r
+                e.update(c14.observe(cache, cfgd))
+            except Exception as ex:  # noqa: BLE001
+                e["res"] = -1
+                e["exc"] = type(ex).__name__
+                e.update({"present": [], "len": -1, "vals": [], "cnts": [], "durs": []})
+            ctl.op_end(e)
+    ths = [threading.Thread(target=proc, args=(p, script["progs"][p - 1]), daemon=True) for p in (1, 2)]
+    for t in ths:
+        t.start()
+    for t in ths:
+        t.join(timeout=300)
+    evs = [{k: v for k, v in e.items() if k != "p"} for e in ctl.events if e is not None]
+    return {"kind": cfgd["kind"], "max": cfgd["max"], "lsize": 0, "aw": 1, "dw": 1, "keys": keys, "shared": True,
+            "ev": evs, "ops": script["steps"], "stuck": ctl.stuck or "", "progs": script["progs"]}
+
+
+def run(ctx) -> None:
+    quick = ctx.tier == "quick"
+    traces = []
+    plan = [("lru", 2, 1), ("lru", 2, 3), ("hybrid", 2, 1), ("lru", 1, 4)] if quick else \
+           [("lru", 2, 1), ("lru", 2, 2), ("lru", 2, 3), ("lru", 1, 4), ("lru", 2, 4), ("hybrid", 2, 1), ("hybrid", 2, 3), ("hybrid", 1, 4)]
+    for kind, mx, ps in plan:
+        scripts, _ = export_scripts(ctx, kind, mx, ps)
+        cfgd = {"kind": kind, "max": mx, "lsize": 0, "aw": 1, "dw": 1, "keys": ["a", "b", "c"]}
+        for s in scripts[: (40 if quick else 400)]:
+            traces.append(realise(s, cfgd))
+    for t in traces:
+        if t["stuck"]:
+            raise MachineryError(f"lock schedule could not be realised: {t['stuck']}")
+        ctx.case({"conc": t["ops"], "kind": t["kind"], "max": t["max"]},
+                 nontrivial=any(a["p"] != b["p"] for a, b in zip(t["ops"], t["ops"][1:])))
+    ctx.sample({"concurrent": {"steps": [(s["p"], s["s"]) for s in traces[0]["ops"]], "progs": traces[0]["progs"]}})
+    rej = validate_traces(ctx, "TraceCache", traces, "conc", invariants=["InvWellFormed", "InvLenBounded"],
+                          strip=("ops", "shared", "stuck", "progs"))
+    for i, reached in rej.items():
+        t = traces[i]
+        e = t["ev"][reached - 1]
+        racy = any(s["s"] == "test" for s in t["ops"])
+        ctx.violation({"check": "interleaving", "cls": {"lru": "LRUCache", "hybrid": "HybridCache"}[t["kind"]], "op": e["op"],
+                       "exc": e.get("exc") or "mismatch", "between_test_and_lock": racy},
+                      f"shared {t['kind']} cache: interleaved history not linearisable in lock order at operation {reached}: {e}",
+                      {"cfg": {k: t[k] for k in ("kind", "max", "keys")}, "progs": t["progs"], "steps": t["ops"],
+                       "rejected_at": reached})
